@@ -20,6 +20,7 @@ import (
 	"os"
 	"path/filepath"
 	"runtime"
+	"runtime/debug"
 	"sort"
 	"strings"
 	"sync"
@@ -247,7 +248,7 @@ func Clause[T any](r *Run, name string, o Opts, gen func(emit func(T) bool), che
 			defer wg.Done()
 			for batch := range ch {
 				for _, it := range batch {
-					out := check(it.c)
+					out := safeCheck(check, it.c)
 					if out.Skip {
 						continue
 					}
@@ -375,6 +376,22 @@ func Clause[T any](r *Run, name string, o Opts, gen func(emit func(T) bool), che
 	r.mu.Unlock()
 	fmt.Printf("  clause %-28s cases=%-10d evals=%-10d nontrivial=%-9d classes=%-4d exhaustive=%v  %.1fs\n",
 		name, st.Cases, st.Evaluations, st.Nontrivial, len(classes), st.Exhaustive, st.WallS)
+}
+
+// safeCheck runs check and turns a panic that the driver did not expect (and therefore did not
+// catch itself) into a failing outcome: on the unchanged tree no case panics, so a panic that
+// escapes a driver comes from library code called where the property promises a result.
+func safeCheck[T any](check func(T) Outcome, c T) (out Outcome) {
+	defer func() {
+		if r := recover(); r != nil {
+			st := string(debug.Stack())
+			if i := strings.Index(st, "panic("); i >= 0 {
+				st = st[i:]
+			}
+			out = Failf("unexpected panic while executing this case: %v\n%s", r, trunc(st, 1500))
+		}
+	}()
+	return check(c)
 }
 
 // AddSearch lets an explicit-state clause report states/transitions.
